@@ -13,4 +13,12 @@ if [ "$1" = "build" ]; then exit 0; fi
 if [ "$1" = "replay" ]; then
   exec bin/orbcheck replay "$2" "$REPO"
 fi
-exec bin/orbcheck -repo "$REPO" -verif "$(pwd)" -prop "$1" -tier "${2:-quick}"
+TIER="${2:-quick}"
+bin/orbcheck -repo "$REPO" -verif "$(pwd)" -prop "$1" -tier "$TIER"
+rc=$?
+if [ "$TIER" = "thorough" ] && [ $rc -eq 0 ]; then
+  # checker self-test: every mutant and every detected seeded change of this property must still fire
+  # (on scratch copies outside /repo and /verif); a silent rule is a checker defect: exit 2, never a VIOLATION
+  tools/runmut.sh "$1" || exit 2
+fi
+exit $rc
